@@ -8,6 +8,7 @@ import (
 	"go/parser"
 	"go/token"
 	"sort"
+	"slices"
 	"strings"
 )
 
@@ -776,8 +777,166 @@ func partialBatch(cases []Case) []string {
 	return res
 }
 
+// ---- an origin of the declaration's own package, with unexported fields
+
+// localOriginCase: `type accountView account` where account is a struct of the same package with exported and
+// unexported fields (strings, a pointer, slices); the generated AccountView mirrors it minus the omitted fields, and
+// DeepCopyAs gives the retained fields — unexported ones included — the values of the source.
+type localOriginCase struct {
+	Omit []string `json:"omit,omitempty"`
+	Runs int      `json:"runs"`
+	out  string
+	have bool
+}
+
+const localOriginProbe = `package main
+
+import (
+	"fmt"
+	"reflect"
+	"unsafe"
+
+	app "` + genMod + `/app"
+)
+
+func open(f reflect.Value) reflect.Value {
+	return reflect.NewAt(f.Type(), unsafe.Pointer(f.UnsafeAddr())).Elem()
+}
+
+func main() {
+	defer func() {
+		if e := recover(); e != nil {
+			fmt.Println("V PANIC", e)
+		}
+	}()
+	src := reflect.ValueOf(new(app.AccountView))
+	var names []string
+	for i := 0; i < src.Elem().NumField(); i++ {
+		f := open(src.Elem().Field(i))
+		names = append(names, src.Elem().Type().Field(i).Name)
+		switch f.Kind() {
+		case reflect.String:
+			f.SetString(fmt.Sprint("s", i))
+		case reflect.Ptr:
+			n := 7 + i
+			f.Set(reflect.ValueOf(&n))
+		case reflect.Slice:
+			f.Set(reflect.ValueOf([]string{fmt.Sprint("x", i)}))
+		}
+	}
+	fmt.Println("FIELDS", names)
+	out := src.MethodByName("DeepCopyAs").Call(nil)[0]
+	if out.IsNil() {
+		fmt.Println("V COPY-NIL")
+		return
+	}
+	ot := out.Elem().Type()
+	for i := 0; i < ot.NumField(); i++ {
+		name := ot.Field(i).Name
+		of := open(out.Elem().Field(i))
+		sf := src.Elem().FieldByName(name)
+		if !sf.IsValid() {
+			if !of.IsZero() {
+				fmt.Println("V OMITTED-NOT-ZERO", name)
+			}
+			continue
+		}
+		if !reflect.DeepEqual(of.Interface(), open(sf).Interface()) {
+			fmt.Println("V RETAINED-NOT-EQUAL", name)
+		}
+		if of.Kind() == reflect.Slice && of.Len() > 0 && of.Index(0).Addr().Pointer() == open(sf).Index(0).Addr().Pointer() {
+			fmt.Println("V SHARED", name)
+		}
+	}
+	if r := reflect.Zero(src.Type()).MethodByName("DeepCopyAs").Call(nil)[0]; !r.IsNil() {
+		fmt.Println("V NIL-NOT-NIL")
+	}
+	fmt.Println("OK")
+}
+`
+
+func (c *localOriginCase) Line() string { return "" }
+func (c *localOriginCase) Run() string {
+	if c.have {
+		return c.out
+	}
+	c.have = true
+	var b strings.Builder
+	b.WriteString("package app\n\ntype account struct {\n\tID     string `json:\"id\"`\n\tName   string `json:\"name\"`\n\tsecret string `json:\"-\"`\n\tquota  *int\n\tTags   []string `json:\"tags,omitempty\"`\n\tnotes  []string\n}\n\n// +gengo:partialstruct\n")
+	for _, o := range c.Omit {
+		b.WriteString("// +gengo:partialstruct:omit=" + o + "\n")
+	}
+	b.WriteString("type accountView account\n")
+	job := &genJob{Files: map[string]string{"app/account.go": b.String()}, Entry: []string{"./app"}, Gens: []string{"partialstruct"}, Runs: c.Runs,
+		ProbeCommon: "package main\n", Probes: map[string]string{"app": localOriginProbe}}
+	out := runGenJobs([]*genJob{job}, 1)[0]
+	switch {
+	case out.Harness != "":
+		c.out = "harness " + out.Harness
+		return c.out
+	case len(out.ExecErr) == 0:
+		c.out = "harness not run"
+		return c.out
+	}
+	for _, e := range out.ExecErr {
+		if e != "" {
+			c.out = "err " + e
+			return c.out
+		}
+	}
+	if n := len(out.BuildFail); n > 0 {
+		for pkg, msg := range out.BuildFail[n-1] {
+			if msg != "" {
+				c.out = "build-fail " + pkg + " " + clip(msg, 300)
+				return c.out
+			}
+		}
+	}
+	var ls []string
+	for _, l := range strings.Split(strings.TrimSpace(out.ProbeOut), "\n") {
+		if l != "" {
+			ls = append(ls, l)
+		}
+	}
+	c.out = strings.Join(ls, "; ")
+	if len(ls) == 0 {
+		c.out = "build-fail probe " + clip(out.ProbeErr, 300)
+	}
+	return c.out
+}
+func (c *localOriginCase) Oracle(out string) string {
+	if strings.HasPrefix(out, "harness") {
+		return ""
+	}
+	var want []string
+	for _, f := range []string{"ID", "Name", "secret", "quota", "Tags", "notes"} {
+		if !slices.Contains(c.Omit, f) {
+			want = append(want, f)
+		}
+	}
+	if w := fmt.Sprintf("FIELDS %v; OK", want); out != w {
+		return fmt.Sprintf("`type accountView account` over a struct of the same package (omit %v, %d run(s)): %s; the origin minus the omitted fields, copied field by field, gives %s", c.Omit, c.Runs, out, w)
+	}
+	return ""
+}
+func (c *localOriginCase) Shrinks() []Case   { return nil }
+func (c *localOriginCase) Key() string       { return fmt.Sprintf("omit=%v runs=%d", c.Omit, c.Runs) }
+func (c *localOriginCase) Classes() []string { return []string{fmt.Sprintf("omitted:%d", len(c.Omit))} }
+func (c *localOriginCase) Nontrivial() bool  { return true }
+
 func init() {
 	register(&Property{ID: "C18", Streams: []*Stream{
+		{
+			Name: "local-origin", New: func() Case { return &localOriginCase{} },
+			Enum: func(tier string, yield func(Case)) {
+				for _, om := range [][]string{nil, {"Tags"}, {"secret"}, {"Name", "notes"}} {
+					yield(&localOriginCase{Omit: om, Runs: 1})
+				}
+				yield(&localOriginCase{Omit: []string{"quota"}, Runs: 2})
+			},
+			EnumExhaustive: false,
+			Rule:           "`type accountView account` over a struct of the declaration's own package with exported and unexported fields (strings, a pointer, slices), with several omit sets, one run or two; go build, and a probe that fills every field of the generated struct (unexported ones through their addresses), calls DeepCopyAs and compares field by field with the result, also on nil; oracle: the fields are the origin's minus the omitted ones, in order, every retained field equal to the source's and no slice shared",
+		},
 		{
 			Name: "origins", Quick: 500, Thorough: 4000, New: func() Case { return &partialCase{} },
 			Gen:      func(r *Rng, i int) Case { return genPartial(r) },
